@@ -27,7 +27,7 @@ COMPONENTS = dict(real=["hio.core.http.serving.Server/BareServer/ServerDoer/Requ
                         "hio.base.doing.Doist (virtual time)", "OpenSSL engine"],
                   stub=["kernel sockets (FakeSocket)", "raw scripted clients"])
 ASSUMPTIONS = ["TLS clients complete the handshake before falling silent (connections stalled inside the handshake are outside the generated domain)",
-               "traffic = bytes accepted from or delivered to the server-side socket (TLS: plaintext moved by the server-side TLS layer)"]
+               "traffic = bytes the server moved through the server-side socket plus client bytes that became readable on it, whether read yet or not (TLS: plaintext moved by the server-side TLS layer)"]
 PROBES = ["silent_closed", "trickle_survived", "burst_then_idle", "app_never_finishes", "persistent_kept", "tls_case", "bare_server",
           "slow_download_completed"]
 BOUNDS = dict(quick=dict(clients=3, cycles=450), thorough=dict(clients=3, cycles=450))
@@ -281,7 +281,9 @@ def run_case(tape, tier):
                 if c.sock is None or c.sock.peer is None:
                     continue
                 srv = c.sock.peer            # server-side socket of this connection
-                tymes = srv.io_tymes
+                # plain: traffic = bytes the server moved through the socket and bytes of the client that became readable on it
+                # (whether or not the server has looked yet)
+                tymes = sorted(srv.io_tymes + srv.arr_tymes)
                 if tls:
                     # traffic as the server can see it: plaintext moved by the TLS layer (a record that is still trickling
                     # into the kernel has not been sent as far as SSL_write's caller can tell)
